@@ -21,6 +21,9 @@ CHECKS = {
  "C03": ("exploration", "sequence and byte equality under scheduled fragmentation (chunking reader, in-memory wire, raw TCP writes, raw WebSocket messages); pull and allocation counters for the read limit; truncation probes",
          "every single/pair of split points of short streams, PRNG chunking of long streams with packets around 4096 bytes, all async/sync patterns of <=6 sends x 3 flush delays, BaseConn both directions, TCP and WebSocket loopback",
          "expected bytes come from internal/ref/codec.go; loopback networking must be available (else that part is reported inconclusive)", "2-C03"),
+ "C06": ("exploration", "reference delivery model compared with the PUBLISH multisets received by scripted peers behind FIFO marker fences (sequential), event-log-order oracle for concurrent runs",
+         "120 (quick) / 2500 (thorough) sequential histories of 20-40 operations over 1-6 clients checked after every operation, 40 / 1000 concurrent runs of 2-6 clients with backend-boundary perturbation",
+         "peers acknowledge everything and keep reading; offline/resume behaviour belongs to C08; in concurrent runs a delivery may carry the uncapped publish QoS when the client's own unsubscribe fell between publish and delivery (recorded, not asserted)", "2-C06"),
 }
 NOT_APPLICABLE = {}
 def main():
